@@ -716,7 +716,8 @@ func checkC11(c *Check) {
 	if c.ID == "C11" {
 		importObls(c, "C05", checkC05, "C11.R4", func(o *Obligation) bool { return strings.HasPrefix(o.Key, "C05.R1/") })
 		importObls(c, "C15", checkC15, "C11.R3", func(o *Obligation) bool {
-			return strings.HasPrefix(o.Key, "C15.R2/deref/") && (strings.Contains(o.Key, "refreshToken") || strings.Contains(o.Key, "performIDPRequest") || strings.Contains(o.Key, "isValidIDP"))
+			// dereferences of the decoded token-endpoint answer
+			return strings.HasPrefix(o.Key, "C15.R2/deref/") && (strings.Contains(o.Key, "performIDPRequest#") || strings.Contains(o.Key, "/(*internal/authz.oidcHandler).performIDPRequest/") || strings.Contains(o.Key, "/internal/authz.performIDPRequest/") || strings.Contains(o.Key, "isValidIDP"))
 		})
 	}
 	c.Obl(len(region) > 0 && redirOK && noAllow, "C11.R4", "failure-relogin", P.Pos(site.Pos()), "failed refresh ⇒ login redirect with the presented session id (stale session removed), never allow/store",
